@@ -196,6 +196,19 @@ def run_config(chk, config):
     rets = eng.analyse(a.msg_try_read_validate["key"], name="Message::try_read_validate[%s]" % config)
     record_engine(chk, eng, "Message::try_read_validate [%s]: %d paths, all option sets symbolic" % (config, len(rets)))
     problems = []
+    off_paths = {}
+    import re as _re
+
+    def _norm(r_):
+        # names of fresh objects and frame instances differ from path to path without meaning anything
+        return _re.sub(r"\((\d+), (\d+)\)", r"(_, \2)", _re.sub(r"\$\d+", "$", r_))
+
+    def err_names(st_, vi_, payload_):
+        if vi_ == 1 and isinstance(payload_, VRef):
+            vv_ = st_.cells.get(payload_.cell)
+            if isinstance(vv_, VVec) and vv_.elems:
+                return tuple(tables.variant_name(eng, e_) for e_ in vv_.elems)
+        return ()
     n_rej = {"InvalidReservedBits": 0, "InvalidVersion": 0, "ForbiddenControlMessagePriority": 0, "ForbiddenControlMessageOffset": 0}
     for st, v in rets:
         reads = [e for e in st.events() if e[0] == "read"]
@@ -205,14 +218,22 @@ def run_config(chk, config):
         facts = {k: val for (sym, k), val in st.bitfacts.items() if sym == F}
         o = {n: opt_state(eng, st, n) for n in OPTS}
         vi, payload = result_parts(v)
-        for k in facts:
-            if k in hs["reserved"] and o["reserved"] != "Yes":
-                problems.append("reserved bit %d influences the result although reserved checking is %s" % (k, o["reserved"]))
         is_control = facts.get(hs["T"]) is True
-        if is_control:
-            for k in (hs["P"], hs["O"]):
-                if k in facts and o["unused"] != "Yes":
-                    problems.append("control message bit %d influences the result although unused-field checking is %s" % (k, o["unused"]))
+        # a path that tested a reserved bit (or a control message's P / O bit) with the option off: the bit influences the
+        # result unless the paths that differ only in such bits cover every value of them with the same outcome (the
+        # test was evaluated, e.g. as an operand of a tuple match, but nothing was made of it) - settled below, per class
+        for optn, bits_ in (("reserved", tuple(hs["reserved"])), ("unused", (hs["P"], hs["O"]) if is_control else ())):
+            touched = [k for k in facts if k in bits_]
+            if touched and o[optn] != "Yes":
+                defs_ = st.ghost.get("defs", set())
+                # (the binary digits of these very bits, pinned together with the bit facts, are not "other" constraints)
+                dig_ = set("r[%s/2]" % (F if k == 0 else "q[%s/%d]" % (F, 1 << k)) for k in bits_)
+                sig = (optn, o[optn], vi, tables.variant_name(eng, payload) if vi == 0 else None,
+                       tuple(sorted((p_, _norm(repr(l_))) for p_, l_ in layout.leaves(eng, st, v))) + (err_names(st, vi, payload),),
+                       tuple(sorted((k, val) for k, val in facts.items() if k not in bits_)),
+                       tuple(sorted(_norm(repr(c_)) for c_ in st.cons if c_[0].key() not in defs_ and not (set(c_[0].t) <= dig_))),
+                       tuple(sorted((n_, o[n_]) for n_ in OPTS)))
+                off_paths.setdefault(sig, []).append({k: facts[k] for k in touched})
         # version nibble consulted?  Every symbol of this path that denotes exactly the version bits of the flag word
         # (however the code carved them out: (w >> 4) & 0xf, (w as u8) >> 4, (w & 0xf0) >> 4, ...) is one view of it
         q_, _r = eng.divmod_const(st, Lin.sym(F), 1 << hs["version_shift"])
@@ -244,6 +265,19 @@ def run_config(chk, config):
             lin = getattr(leaf, "lin", None)
             if lin is not None and any(s.startswith("validation_options.") for s in lin.t):
                 problems.append("a decoded field (%s) depends on a validation option" % p)
+    import itertools
+    for sig, parts in off_paths.items():
+        optn = sig[0]
+        bits_ = sorted(set(k for pa in parts for k in pa))
+        # do the partial assignments of this class cover all values of the bits they mention?
+        covered = all(any(all(pa[k] == asg[i] for i, k in enumerate(bits_) if k in pa) for pa in parts)
+                      for asg in itertools.product((False, True), repeat=len(bits_))) if len(bits_) <= 10 else False
+        if not covered:
+            for k in bits_:
+                if optn == "reserved":
+                    problems.append("reserved bit %d influences the result although reserved checking is %s" % (k, sig[1]))
+                else:
+                    problems.append("control message bit %d influences the result although unused-field checking is %s" % (k, sig[1]))
     chk.oblig(not problems, "gating | Message::try_read_validate",
               "validation options do not only gate their own check: %s" % sorted(set(problems))[:3],
               {"rule": "each option consults exactly its own bits, and only when switched on", "problems": sorted(set(problems))},
